@@ -10,6 +10,7 @@
       -> per attempt "<outcome> n=<waiting requests before each step> link=<manifest id|none> files=<hex,...> stage=<hex,...>", joined by " | "
     push <nlayers> {postErr|cached|putOk|putErr}* <nsched> {k}* <manifestOk 0|1>
       -> "<events> res=<ok|err>" | bad-schedule
+    canretry <ok|cls>  -> 1 | 0   (the model's `canRetry`)
     legacy <nlayers> {<head 0|1|2> <post 0|1> <npatch> {0|1}* <ncommit> {0|1}*}* <manifestOk 0|1>
       -> "<events> res=<ok|err>"
 -/
@@ -185,6 +186,11 @@ def handle (toks : List String) : Option String :=
         | some tr =>
           let ok := outs.all (·.good) && mok
           s!"{joinWith " " (tr.map showPushEv)} res={if ok then "ok" else "err"}")) rest
+  | ["canretry", "ok"] => some (if canRetry .ok then "1" else "0")
+  | "canretry" :: rest =>
+    runTP (do
+      let e ← pCls
+      pure (if canRetry (.err e) then "1" else "0")) rest
   | "legacy" :: rest =>
     runTP (do
       let ls ← listOf pLegacy
